@@ -281,6 +281,14 @@ class Arith(Unit):
     def witness_constraints(self, ctx):
         return [z3.And(c <= 1000, c >= -1000) for n, c in ctx.inputs.items() if c.sort() == z3.IntSort()]
 
+    def witness_candidates(self, ctx):
+        # float-only corner of // % divmod: count + frac rounds across a multiple of the divisor, so the real code's correction
+        # pass runs (in exact arithmetic it never does); the real result must still agree with the exact one
+        if self.op in ("floordiv", "mod", "divmod") and self.shape == ():
+            return [{"pi0": 2**40, "pf0": Fraction(-1, 10**20), "w": Fraction(2)}, {"pi0": 3 * 2**30, "pf0": Fraction(-1, 10**18), "w": Fraction(3)},
+                    {"pi0": -(2**35), "pf0": Fraction(1, 10**19), "w": Fraction(4)}, {"pi0": 2**40, "pf0": Fraction(-1, 10**20), "w": Fraction(1)}]
+        return []
+
     def compare(self, S, args, out, CS, cargs, cout):
         a, b = isinstance(out, Raised), isinstance(cout, Raised)
         if a or b:
